@@ -4,7 +4,7 @@ import sockgen as G
 
 RULE = ("family proxy: ProxyHandler between a client on SimTcp and a scripted upstream server on the loopback interface; all methods x "
         "paths with unreserved, percent-encoded reserved, space, CR/LF and non-ASCII characters x query strings (incl. fragments) x header "
-        "sets (duplicates, pre-existing X-Forwarded-For / X-Real-IP, case variants) x bodies (a few bytes, and single arrivals of 65 KiB..100 KB) x the number of body segments that arrive "
+        "sets (duplicates, pre-existing X-Forwarded-For / X-Real-IP, case variants) x bodies (a few bytes, with and without a Content-Length - chunked framing is passed on as it is -, and single arrivals of 65 KiB..100 KB) x the number of body segments that arrive "
         "before the upstream connection completes; non-trivial = distinct case")
 ASSUMPTIONS = ["client addresses are given in the form QHostAddress::toString() prints them", "request targets are in the C01 class or tabulated by QUrl", "the client's address is the SimTcp peer address 10.1.2.3"]
 TRUSTED = ["the upstream server is a QTcpServer in the harness; the kernel's loopback TCP carries the bytes"]
@@ -25,7 +25,13 @@ def req(rng):
     for _ in range(rng.range(0, 3)):
         lines.insert(rng.below(len(lines) + 1), rng.choice([b"Cookie", b"cookie", b"Accept", b"X-A"]) + b": " + rng.choice([b"a=1", b"b=2", b"*/*", b"v w"]))
     body = rng.bytes(rng.choice([0, 0, 1, 5, 12]))
-    if body or rng.chance(1, 3):
+    if body and rng.chance(1, 5):
+        # a body that no Content-Length announces (chunked framing, or simply "until the client stops"): the proxy passes the bytes on as they are
+        if rng.chance(2, 3):
+            lines.insert(rng.below(len(lines) + 1), b"Transfer-Encoding: chunked")
+            body = b"%x\r\n" % len(body) + body + b"\r\n0\r\n\r\n"
+        declared = True
+    elif body or rng.chance(1, 3):
         lines.insert(rng.below(len(lines) + 1), b"Content-Length: %d" % len(body))
         declared = True
     else:
